@@ -43,7 +43,7 @@ def truthy(res):
     partitions={'q': [['t0 == %d' % a, 't1 == %d' % b, 'len(d0) <= 2 and len(d1) <= 2', 'h0 == 8 and h1 == 8 and u0 == "" and u1 == "" and k0 == 1 and k1 == 1'] for a in (0, 1) for b in (0, 1)] +
                      [['t0 == %d' % a, 't1 == %d' % b, 'd0 == b"a" and d1 == b"a"', 'k0 in (1, 2) and k1 in (1, 2)', 'h0 == %d' % c] for a in (0, 1) for b in (0, 1) for c in (2, 8)],
                 't': [['t0 == %d' % a, 't1 == %d' % b, 'h0 == 8 and h1 == 8 and u0 == "" and u1 == "" and k0 == 1 and k1 == 1'] for a in (0, 1) for b in (0, 1)] +
-                     [['t0 == %d' % a, 't1 == %d' % b, 'len(d0) <= 1 and len(d1) <= 1', 'k0 in (1, 2, 255) and k1 in (1, 2, 255)', 'h0 == %d' % c] for a in (0, 1) for b in (0, 1) for c in (2, 8)]})
+                     [['t0 == %d' % a, 't1 == %d' % b, 'len(d0) <= 1 and len(d1) <= 1', 'k0 == %d and k1 in (1, 2, 255)' % k, 'h0 == %d' % c, 'h1 == %d' % d] for a in (0, 1) for b in (0, 1) for c in (2, 8) for d in (2, 8) for k in (1, 2, 255)]})
 def sound_doc(t0: int, t1: int, d0: bytes, d1: bytes, h0: int, h1: int, u0: str, u1: str, k0: int, k1: int) -> bool:
     """
     pre: t0 in (0, 1) and t1 in (0, 1)
